@@ -94,3 +94,4 @@ open Csproto
 #print axioms Csproto.C02.Source.skip_step
 #print axioms Csproto.C02.Source.skip_walk
 #print axioms Csproto.Bridge.EncoderFuncs.EncodeMapEntryHeader_refines
+#print axioms Csproto.Bridge.EncoderFuncs.EncodeRaw_refines
